@@ -5,6 +5,7 @@ import (
 	"bytes"
 	"encoding/json"
 	"encoding/xml"
+	"errors"
 	"fmt"
 	"strings"
 	"time"
@@ -356,6 +357,59 @@ var entries = map[string]func(a, b string) [4]outcome{
 	},
 }
 
+// buffer reuse: the caller decodes every record into one buffer; each call must agree with the string instantiation on the same content
+var reuseEntries = map[string]struct {
+	b func([]byte) outcome
+	s func(string) outcome
+}{
+	"date.DefaultParser":       {func(b []byte) outcome { return oc(date.DefaultParser(b, 0)) }, func(s string) outcome { return oc(date.DefaultParser(s, 0)) }},
+	"date.UnmarshalText":       {func(b []byte) outcome { var d date.Date; err := d.UnmarshalText(b); return oc(d, unwrapOnce(err)) }, func(s string) outcome { return oc(date.DefaultParser(s, 0)) }},
+	"roman.DefaultParser":      {func(b []byte) outcome { return oc(roman.DefaultParser(b, 0)) }, func(s string) outcome { return oc(roman.DefaultParser(s, 0)) }},
+	"roman.Valid":              {func(b []byte) outcome { return oc(0, roman.Valid(b, 0)) }, func(s string) outcome { return oc(0, roman.Valid(s, 0)) }},
+	"sem.Parse":                {func(b []byte) outcome { return oc(sem.Parse(b)) }, func(s string) outcome { return oc(sem.Parse(s)) }},
+	"sem.ParseTag":             {func(b []byte) outcome { return oc(sem.ParseTag(b)) }, func(s string) outcome { return oc(sem.ParseTag(s)) }},
+	"sem.DefaultParser":        {func(b []byte) outcome { return oc(sem.DefaultParser(b, 0)) }, func(s string) outcome { return oc(sem.DefaultParser(s, 0)) }},
+	"size.DefaultParser(text)": {func(b []byte) outcome { return oc(size.DefaultParser(b, 0)) }, func(s string) outcome { return oc(size.DefaultParser(s, 0)) }},
+	"size.DefaultParser(JSON)": {func(b []byte) outcome { return oc(size.DefaultParser(b, 6)) }, func(s string) outcome { return oc(size.DefaultParser(s, 6)) }},
+	"uu.DefaultParser":         {func(b []byte) outcome { return oc(uu.DefaultParser(b, 0)) }, func(s string) outcome { return oc(uu.DefaultParser(s, 0)) }},
+}
+
+func unwrapOnce(err error) error {
+	if err == nil {
+		return nil
+	}
+	if u := errors.Unwrap(err); u != nil {
+		return u
+	}
+	return err
+}
+
+type reuseArg struct {
+	Entry string `json:"entry"`
+	A     mc.Bin `json:"first_content"`
+	B     mc.Bin `json:"second_content"`
+}
+
+func probeReuse(a reuseArg) (string, string) {
+	e := reuseEntries[a.Entry]
+	wantA, want := e.s(string(a.A)), e.s(string(a.B)) // reference answers first: nothing else may run between the two calls on the shared buffer
+	buf := make([]byte, 0, 256)
+	buf = append(buf, a.A...)
+	first := e.b(buf)
+	buf = append(buf[:0], a.B...) // the same backing array, overwritten in place
+	second := e.b(buf)
+	if first.val != wantA.val || (first.err == "") != (wantA.err == "") {
+		return "value_differs", fmt.Sprintf("%s: []byte(%q) gives %+v, string gives %+v", a.Entry, a.A, first, wantA)
+	}
+	if second.val != want.val || (second.err == "") != (want.err == "") {
+		return "stale_or_different_result_on_reused_buffer", fmt.Sprintf("%s: after parsing %q, the same buffer now holding %q gives %+v; the string instantiation gives %+v", a.Entry, a.A, a.B, second, want)
+	}
+	if string(buf) != string(a.B) {
+		return "input_modified", fmt.Sprintf("%s: the buffer holding %q now reads %q", a.Entry, a.B, buf)
+	}
+	return "", ""
+}
+
 func probeAgree(a agreeArg) (string, string) {
 	f, ok := entries[a.Entry]
 	if !ok {
@@ -468,6 +522,29 @@ func main() {
 				r.Serial(func(w *mc.W) { w.Outcome("agreement " + u.entries[0]) })
 			})
 		}
+		pR := mc.NewProbe(r, "buffer_reuse", nil, probeReuse)
+		reuseTexts := map[string][]string{
+			"date":  {"2024-02-29", "2024-02-28", "20240229", "20240228", "2023-02-29", "1999-12-31", "x", "", "2024-02-2x"},
+			"roman": {"XII", "XIV", "XIQ", "cd", "cm", "MMXXIV", "MMXXVI", "", "iiii", "iiiii"},
+			"sem":   {"1.2.3", "1.2.4", "1.2.x", "v1.2.3", "1.2.3-rc.1", "1.2.3-rc.2", "1.2.3-rc..", "1.2.3+b1", "1.2.3+b2", "", "9.9.9-a+b", "9.9.9-a+c"},
+			"size":  {"1KiB", "2KiB", "1XiB", "12", "13", "1x", `{"value":1,"unit":"B"}`, `{"value":2,"unit":"B"}`, `{"value":2,"unit":"X"}`, `"1kB"`, `"2kB"`, ""},
+			"uu":    {"ed7059f3-6fc0-4b0c-9b7a-2ea5a0b4b8f1", "ed7059f3-6fc0-4b0c-9b7a-2ea5a0b4b8f2", "ed7059f3-6fc0-4b0c-9b7a-2ea5a0b4b8fg", "urn:uuid:ed7059f3-6fc0-4b0c-9b7a-2ea5a0b4b8f1", "urn:uuid:ed7059f3-6fc0-4b0c-9b7a-2ea5a0b4b8f3", ""},
+		}
+		r.Phase("serial: buffer reuse - every ordered pair of contents decoded one after the other into one buffer, 10 entry points, against the string instantiation", "complete for the listed contents", func() {
+			r.Serial(func(w *mc.W) {
+				for name := range reuseEntries {
+					texts := reuseTexts[strings.SplitN(name, ".", 2)[0]]
+					for _, a := range texts {
+						for _, b := range texts {
+							w.Point()
+							w.NonTrivial()
+							pR.Do(w, reuseArg{name, mc.Bin(a), mc.Bin(b)})
+						}
+					}
+				}
+				w.Outcome("buffer reuse")
+			})
+		})
 		two := []string{"sem.Compare", "sem.CompareTag", "sem.Latest", "sem.LatestVersion", "sem.LatestTag", "sem.DefaultComparePreRelease"}
 		var pool []string
 		var gen func(cur string, n int)
